@@ -227,7 +227,7 @@ pub fn auto_transport(s: &rv::State, gold: bool) -> rv::Transport {
             if gold {
                 rv::Framing::Gold { cuts: crate::rsm::even_cuts(len, k.min(15)), id }
             } else {
-                rv::Framing::Source { cuts: crate::rsm::even_cuts(len, k), compressed: false, size_field: true, id }
+                rv::Framing::Source { cuts: crate::rsm::even_cuts(len, k), compressed: false, size_field: true, exact_size: false, id }
             }
         }
     };
